@@ -555,6 +555,12 @@ def check_property(prop, tier, seed):
         thorough = run_thorough(prop, cfg, unit_results, seed)
         for u in thorough.get('undecided', []):
             undecided.append(u)
+        for cv in thorough.get('companion_violations', []):
+            payload = {'property': prop, 'unit': cv['unit'], 'function': None,
+                       'failed_obligation': {'labels': [], 'message': 'bounded companion (native witness search) found a failing input of the real code'},
+                       'verifier': 'native witness search (bounded)', 'verifier_output': cv['output'], 'failing_input': cv['output'].split('\n')[0],
+                       'native_replay': {'case': cv['case'], 'args': cv['args'], 'output': cv['output'], 'confirmed_on_real_code': True}}
+            violations.append(('%s_companion' % cv['unit'], payload, True))
 
     # ---- known findings that were expected but did not show up are *not* an error (a fix makes them disappear) ----
     wall = time.time() - t0
@@ -662,6 +668,25 @@ def run_thorough(prop, cfg, unit_results, seed):
                 out['mutants'].append({'unit': ur.unit, 'fn': mu['fn'], 'mutant': mu['name'], 'killed': killed, 'note': note})
                 if not killed:
                     out['undecided'].append('%s: contract too weak or mutant not applicable: mutant %s of %s survived (%s)' % (ur.unit, mu['name'], mu['fn'], note))
+    # (iii) bounded companions: the native witness searches of the units, with a larger budget.  They are NOT proof steps and
+    #       are reported separately; a concrete failing input found on the real code is a violation (returned to the caller).
+    from config import WITNESS_SEARCH
+    out['bounded_companions'] = []
+    out['companion_violations'] = []
+    for ur in unit_results:
+        ws = WITNESS_SEARCH.get(ur.unit)
+        if not ws:
+            continue
+        args = [str(a).replace('$SEED', str(seed + 101)) for a in ws[1]]
+        if len(args) > 1 and args[1].isdigit():
+            args[1] = str(int(args[1]) * 4)
+        rc_w, out_w = native_replay(ws[0], args, timeout=1500)
+        out['bounded_companions'].append({'unit': ur.unit, 'case': ws[0], 'args': args, 'bounded': True, 'found_failing_input': rc_w == 1,
+                                          'summary': out_w.strip().split('\n')[0][:300]})
+        if rc_w == 1:
+            out['companion_violations'].append({'unit': ur.unit, 'case': ws[0], 'args': args, 'output': out_w})
+        elif rc_w != 0:
+            out['undecided'].append('%s: bounded companion %s did not run to completion (rc=%s): %s' % (ur.unit, ws[0], rc_w, out_w.strip()[-200:]))
     return out
 
 
